@@ -3,7 +3,7 @@ from ..engine import analyze_fn, program
 from ..terms import T, pp
 from .. import prov
 from ..prov import norm, show, P, F_, C
-from ..hashrules import soundness, sysv_hash_form, fact_norms, wh, walk_exits, counter_phi, range_of_next
+from ..hashrules import soundness, sysv_hash_form, fact_norms, wh, walk_exits, walk_compares, early_exits, cond_holds, counter_phi, range_of_next
 
 LEVEL = "other"
 EXPLANATION = (
@@ -73,6 +73,14 @@ def run(ctx, rep):
                 return val == "0" or "leaves while the step bound is not yet reached"
             return None
         walk_exits(an, rep, "linkage", "find", w, stop, "index == 0, or nchain steps taken")
+        walk_compares(an, rep, "linkage", "find", w, lambda d, val: False, "")
+
+        def early_ok(d, val):
+            atom, pol = cond_holds(d, val)
+            if atom[0] == "Eq" and len(atom) == 3:
+                atom = ("Eq",) + tuple(sorted(atom[1:], key=repr))
+            return pol and atom in (("Eq",) + tuple(sorted((nb, C(0)), key=repr)), ("Lt", nb[1], nb[2]))
+        early_exits(an, rep, "linkage", "find", w, early_ok, "no buckets")
         # early None exactly for empty buckets
         empties = 0
         for t, st in an.ret_leaves() or []:
@@ -86,6 +94,8 @@ def run(ctx, rep):
     fn = F.fn("hash::SysVHashTable::new")
     if fn is not None:
         an2 = analyze_fn(F, fn)
+        from ..hashrules import ctor_refusals
+        ctor_refusals(rep, "linkage", "new", an2, wh(fn["span"]))
         outs = [norm(v) for v, _ in prov.ok_outcomes(an2)]
         data = P(3)
         H = prov.PARSE("hash::SysVHashHeader", P(1), P(2), C(0), data)
